@@ -3,6 +3,7 @@ package main
 import (
 	"fmt"
 	"go/ast"
+	"go/token"
 	"go/types"
 	"golang.org/x/tools/go/ssa"
 	"sort"
@@ -330,6 +331,60 @@ func shapeC20(c *Ctx, cn *types.Func) {
 		c.OK("C20.shape", key, ix.Pos(), "index i+offset with i ranging over the expanded column list")
 	})
 	c.Floor("C20.shape", nStores, 3)
+	// the time column: the slot is reserved under the same condition under
+	// which it is filled
+	var offCond, slotCond ast.Expr
+	var walk func(n ast.Node, cond ast.Expr)
+	walk = func(n ast.Node, cond ast.Expr) {
+		switch x := n.(type) {
+		case nil:
+			return
+		case *ast.IfStmt:
+			walk(x.Body, x.Cond)
+			if x.Else != nil {
+				walk(x.Else, nil)
+			}
+			return
+		case *ast.IncDecStmt:
+			if id := identOf(x.X); id != nil && p.Info.ObjectOf(id) == offsetObj && cond != nil {
+				offCond = cond
+			}
+		case *ast.AssignStmt:
+			for i, l := range x.Lhs {
+				if id := identOf(l); id != nil && p.Info.ObjectOf(id) == offsetObj && cond != nil && x.Tok != token.DEFINE {
+					if i < len(x.Rhs) {
+						if _, isZero := pe.constInt(x.Rhs[i]); !isZero || types.ExprString(x.Rhs[i]) != "0" {
+							offCond = cond
+						}
+					}
+				}
+				if ix, ok := ast.Unparen(l).(*ast.IndexExpr); ok {
+					if id := identOf(ix.X); id != nil && p.Info.ObjectOf(id) == res {
+						if k, isConst := pe.constInt(ix.Index); isConst && k == 0 && cond != nil {
+							slotCond = cond
+						}
+					}
+				}
+			}
+		}
+		ast.Inspect(n, func(m ast.Node) bool {
+			if m == n || m == nil {
+				return true
+			}
+			walk(m, cond)
+			return false
+		})
+	}
+	walk(fd.Body, nil)
+	key := "(*SelectStatement).ColumnNames: time column reserved iff filled"
+	switch {
+	case offCond == nil || slotCond == nil:
+		c.Unk("C20.shape", key, fd.Pos(), "the offset increment or the store into slot 0 is not under a plain if")
+	case types.ExprString(offCond) == types.ExprString(slotCond):
+		c.OK("C20.shape", key, offCond.Pos(), "both under `"+types.ExprString(offCond)+"`")
+	default:
+		c.Bad("C20.shape", key, offCond.Pos(), "a slot is reserved for the time column under `"+types.ExprString(offCond)+"` but it is filled under `"+types.ExprString(slotCond)+"`: when the conditions differ the result has an extra empty first column (or the first field overwrites the time column)")
+	}
 }
 
 // initOnlyFuncs: unexported in-package functions every static reference to
